@@ -34,6 +34,18 @@ def c08_extra(prop,tier,seed,repo,reg,known):
 def c09_extra(prop,tier,seed,repo,reg,known):
   from zoo.run import run_special
   return run_special('defect',repo,seed,tier)
+def c06_extra(prop,tier,seed,repo,reg,known):
+  """bounded stand-in for the class factory (_process_class / mk_bitstruct): same-named declarations that differ in one aspect keep their own shape."""
+  import time
+  from zoo import bscheck
+  t0=time.time()
+  try: r=bscheck.check(repo)
+  except Exception as e: r=[f"the class-factory check could not run: {type(e).__name__}: {str(e)[:160]}"]
+  fails=[dict(args={'design':'bitstruct-class-factory'},failed=[m],custom=dict(kind='custom',module='zoo.replay',entry='replay_bs')) for m in r[:6]]
+  bound=("class factory of bitstructs.py: 9 pairs of same-named declarations differing in one aspect (leaf width, outer list length, inner / middle list dimension, leaf inside a list, nested struct type, "
+         "list of nested structs, field order), each in both declaration orders: every type keeps its own width, field order, default shape and to_bits/from_bits width")
+  return [dict(key="zoo::bitstruct_class_factory",ok=True,error=None,obligations=[],kind='bounded-standin',lines=None,ast_hash=None,info=None,time=time.time()-t0,is_standin=True,
+               standin=dict(evaluations=len(bscheck._decls())*4,failures=fails,bound=bound,per_case={}))]
 def c18_extra(prop,tier,seed,repo,reg,known):
   from zoo.run import run_mem
   return run_mem(repo,seed,tier)
@@ -100,8 +112,9 @@ PROPERTIES={
    assumptions=["the removed component's update blocks are keys of the top's host/read/write/call maps (it was collected before) - precondition of the del statements",
                 "set/dict/defaultdict operations of CPython behave as the array model of pyvc/symcoll.py"]),
  'C06': dict(level='proof',
-   claim="Proof per type shape, for all field values (symbolic, unbounded): the generated to_bits / from_bits / __eq__ / __hash__ / clone / __deepcopy__ / @= / <<= / _flip / __init__ of every enumerated bitstruct shape (13 core shapes incl. nested structs, multi-dimensional lists, list-of-struct-in-struct, 1-element lists, 512+511-bit fields, a field named 's'; thorough adds 60 seeded random shapes) meet contracts generated from the statement's layout (first field most significant, list element 0 least significant): packed value and width, from_bits inverse of to_bits, equality iff packed values equal, hashing total, copies equal and sharing no leaf object with the source, @= / <<= copy leaf values into the destination's own objects (frame: nothing else changes). The text verified is the source the real generator emitted (captured by wrapping _create_fn from /verif).",
+   claim="Proof per type shape, for all field values (symbolic, unbounded): the generated to_bits / from_bits / __eq__ / __hash__ / clone / __deepcopy__ / @= / <<= / _flip / __init__ (given arguments, and default construction: pairwise distinct zero leaves) of every enumerated bitstruct shape (13 core shapes incl. nested structs, multi-dimensional lists, list-of-struct-in-struct, 1-element lists, 512+511-bit fields, a field named 's'; thorough adds 60 seeded random shapes) meet contracts generated from the statement's layout (first field most significant, list element 0 least significant): packed value and width, from_bits inverse of to_bits, equality iff packed values equal, hashing total, copies equal and sharing no leaf object with the source, @= / <<= copy leaf values into the destination's own objects (frame: nothing else changes). The text verified is the source the real generator emitted (captured by wrapping _create_fn from /verif).",
    note="Shapes are enumerated (a template bug that only shows at nesting depth >= 3 or list rank >= 3 is outside the quick bound); values are not. The generator functions themselves (string templates) are not under contract. Assumes distinct arguments do not alias (x @= x excluded). concat is used through its contract, which is proved for arity <= 5 and assumed beyond.",
+   extra=['contracts:c06_extra'],
    assumptions=["self and other are distinct objects without shared leaves","leaf widths are the declared ones (type invariant)"]),
  'C01': dict(level='other', engine='rtlvc',
    claim="Mixed. Proved (rtlvc, per library configuration, all states and inputs): for every stdlib design under C17/C19/C20 the settled state is a fixed point - re-running any update block or net block after evaluation changes no signal. Bounded stand-in (labelled bounded, not proved): on the design zoo (families A and C of zoo/designs.py, 214 designs: whole/slice/field/nested writers x readers x net forwarding x predecessor blocks; register designs) every scheduling pass group (default/dynamic, simple with 4 tie-break seeds, heuristic-topological, Mamba2020, unrolled) yields identical values of all signals after every evaluation and tick on seeded random inputs, and re-running any block changes nothing.",
